@@ -1,0 +1,24 @@
+//go:build verif
+
+// C18 contracts for package alert (comment-only; read by /verif/vc).
+package alert
+
+// RFC 5246 7.2: struct { AlertLevel level; AlertDescription description; } Alert — one byte each.
+
+//@ func Alert.Marshal
+//@ inline
+//@ ensures ok: result1 == nil
+//@ ensures size: len(result0) == 2
+//@ ensures layout: result0[0] == byte(a.Level) && result0[1] == byte(a.Description)
+//@ ensures frame: a.Level == old(a.Level) && a.Description == old(a.Description)
+//@ end
+
+//@ func Alert.Unmarshal
+//@ inline
+//@ ensures short: len(data) < 2 ==> result != nil
+//@ ensures long: len(data) > 2 ==> result != nil
+//@ ensures ok: len(data) == 2 ==> result == nil
+//@ ensures fields: result == nil ==> a.Level == Level(data[0]) && a.Description == Description(data[1])
+//@ ensures err-frame: result != nil ==> a.Level == old(a.Level) && a.Description == old(a.Description)
+//@ ensures input-unchanged: forall(0, len(data), func(i int) bool { return data[i] == old(data[i]) })
+//@ end
